@@ -206,13 +206,13 @@ class CFG:
     def dominates(self, a: int, b: int) -> bool:
         """Every path ENTRY -> b passes through a."""
         idom = self.idom()
-        if b not in idom:
+        if b != ENTRY and b not in idom:
             return True  # unreachable
         x = b
         while True:
             if x == a:
                 return True
-            if idom[x] == x:
+            if x == ENTRY or idom.get(x, x) == x:
                 return False
             x = idom[x]
 
